@@ -707,6 +707,19 @@ func (co *ClipperOffset) doSquare(path Path64, j, k int) {
 }
 
 func intersectPoint(pt1a, pt1b, pt2a, pt2b PointD) PointD {
+	// Work relative to pt1a: in the slope/intercept form the intercepts are as large as the
+	// coordinates, so far from the origin the intersection loses all its precision.
+	o := pt1a
+	pt := intersectPointAtOrigin(
+		PointD{X: pt1b.X - o.X, Y: pt1b.Y - o.Y},
+		PointD{X: pt2a.X - o.X, Y: pt2a.Y - o.Y},
+		PointD{X: pt2b.X - o.X, Y: pt2b.Y - o.Y})
+	return PointD{X: pt.X + o.X, Y: pt.Y + o.Y}
+}
+
+// intersectPointAtOrigin intersects the line through the origin and pt1b with the line pt2a-pt2b.
+func intersectPointAtOrigin(pt1b, pt2a, pt2b PointD) PointD {
+	pt1a := PointD{}
 	if isAlmostZero(pt1a.X - pt1b.X) {
 		if isAlmostZero(pt2a.X - pt2b.X) {
 
